@@ -119,7 +119,12 @@ def feed_report(rep, results, pid=None):
             a["n"] += 1
             a["time"] += o["time_s"]
             a["backend"].add(o["backend"])
-            if o["status"] == "refuted":
+            if o["status"] == "refuted" and "ext_unknown" in (o["tags"] or ()):
+                # aggregate matching was incomplete on this path: a counter-model proves nothing
+                if a["status"] != "refuted":
+                    a["status"] = "undecided"
+                    a["detail"] = "counter-model not trusted: Sigma/sorted extensionality check returned unknown on this path"
+            elif o["status"] == "refuted":
                 a["status"] = "refuted"
                 a["models"].append({"path": o["path"], "model": o["model"], "detail": o.get("detail")})
             elif o["status"] == "undecided" and a["status"] != "refuted":
